@@ -45,7 +45,7 @@ impl C19 {
         for t in terms_up_to(tsize) { en.push(rt_term(&t)); }
         // infix arithmetic at term level prints in the named form
         for (op, name) in [("+", "add"), ("-", "subtract"), ("*", "multiply"), ("/", "divide")] {
-            for (a, b) in [(var("$X"), T::Int(7)), (T::Float(1.5), var("$Y")), (T::Int(7), T::Int(7))] {
+            for (a, b) in [(var("$X"), T::Int(7)), (T::Float(1.5), var("$Y")), (T::Int(7), T::Int(7)), (var("$X"), cplx("g", vec![T::Int(7)])), (T::Float(1.5), func("add", vec![var("$Y"), T::Int(7)])), (cplx("g", vec![T::Int(7)]), var("$X"))] {
                 en.push(RoundTrip { level: Level::Term, source: format!("{} {} {}", show(&a), op, show(&b)), canon: show(&func(name, vec![a.clone(), b.clone()])) });
             }
         }
